@@ -556,7 +556,7 @@ class eval_abs(object):
                'objbyid_default0':objbyid_default0,
                }
 
-    op_size_no_check = ['<<<', '>>>', 'a<<', '>>', '<<',
+    op_size_no_check = ['<<<', '>>>', 'a<<', 'a>>', '>>', '<<',
                         '<<<c_rez', '<<<c_cf',
                         '>>>c_rez', '>>>c_cf',]
 
